@@ -290,6 +290,69 @@ def op_sqrt(ctx, a):
     return r1
 
 
+def _offered(ctx, *vals):
+    """The remainder family is only offered by the rounding engine, for dyadic operands: under REAL,
+    or for a non-dyadic rational, the operation is refused (NotImplementedError): no value is denoted."""
+    if ctx.m.kind == 'real':
+        raise Stuck('not-offered', 'remainder under REAL')
+    for v in vals:
+        if isinstance(v, Fraction) and v.denominator & (v.denominator - 1):
+            raise Stuck('not-offered', 'remainder of a non-dyadic rational')
+
+
+def op_mod(ctx, a, b):
+    """x % y: exact x - y*floor(x/y) (sign of the divisor), rounded once.  Special operands and
+    zero results are left to the operation-level check (C02): the documents do not pin them here."""
+    _offered(ctx, a, b)
+    if a == NAN or b == NAN or is_inf(a) or is_zero(b):
+        return rnd(ctx, NAN)
+    if not (isinstance(a, Fraction) and isinstance(b, Fraction)):
+        raise Ambiguous('mod with zero dividend / infinite divisor')
+    q = a / b
+    fl = q.numerator // q.denominator
+    r = a - b * fl
+    if r == 0:
+        raise Ambiguous('zero mod result: sign unspecified')
+    return rnd(ctx, r)
+
+
+def op_fmod(ctx, a, b):
+    """fmod: x - y*trunc(x/y) (sign of the dividend), rounded once."""
+    _offered(ctx, a, b)
+    if a == NAN or b == NAN or is_inf(a) or is_zero(b):
+        return rnd(ctx, NAN)
+    if is_inf(b) or is_zero(a):
+        return rnd(ctx, a)          # C99: fmod(x, inf) = x, fmod(+-0, y) = +-0
+    q = a / b
+    t = abs(q.numerator) // q.denominator
+    t = -t if q < 0 else t
+    r = a - b * t
+    if r == 0:
+        return rnd(ctx, zero(a < 0))
+    return rnd(ctx, r)
+
+
+def op_pow(ctx, a, b):
+    """x ** n for a small integer n >= 0 (IEEE 754 pown rules for zero/infinite/NaN bases); other
+    exponents are left to C02/C03."""
+    if b == PZERO or b == NZERO:
+        n = 0
+    elif isinstance(b, Fraction) and b.denominator == 1 and 0 <= b <= 6:
+        n = int(b)
+    else:
+        raise Ambiguous('pow with non-small-integer exponent')
+    if n == 0:
+        return rnd(ctx, Fraction(1))
+    if a == NAN:
+        return rnd(ctx, NAN)
+    odd = n % 2 == 1
+    if is_inf(a):
+        return rnd(ctx, inf(neg_of(a) and odd))
+    if is_zero(a):
+        return rnd(ctx, zero(neg_of(a) and odd))
+    return rnd(ctx, a ** n)
+
+
 def op_rint(ctx, a, how):
     if a == NAN or is_inf(a) or is_zero(a):
         return rnd(ctx, a)
@@ -556,6 +619,10 @@ class Evaluator:
             return op_mul(ctx, a, b)
         if op is ast.Div:
             return op_div(ctx, a, b)
+        if op is ast.Mod:
+            return op_mod(ctx, a, b)
+        if op is ast.Pow:
+            return op_pow(ctx, a, b)
         raise Unsupported(op.__name__)
 
     def cmp(self, op, a, b):
@@ -783,6 +850,10 @@ class Evaluator:
             return {'add': op_add, 'sub': op_sub, 'mul': op_mul, 'div': op_div}[n](ctx, *vals)
         if n == 'neg':
             return op_neg(ctx, num1())
+        if n == 'fmod':
+            if len(vals) != 2 or not all(is_num(v) for v in vals):
+                raise Stuck('type', n)
+            return op_fmod(ctx, *vals)
         if n == 'isnan':
             return num1() == NAN
         if n == 'isinf':
